@@ -4,6 +4,8 @@
 -/
 import Gts.Lemmas.Delete
 import Gts.Model.Seq
+import Gts.Model.GbSlice
+import Gts.Lemmas.Bounds
 namespace Gts.C03
 open Gts Loc
 
@@ -92,9 +94,48 @@ theorem point_del_collapse (p i k : Int) (h1 : i ≤ p) (h2 : p < i + k) :
   simp only [expand, pointExpand]
   rw [if_pos (by omega)]
 
+/-- **no resulting location refers to a position outside the new sequence**: deleting `[i, i+k)`
+from a sequence of length `L` maps every location whose coordinates lie in `[0, L]` to one whose
+coordinates lie in `[0, L-k]` — every kind, nesting and arity, no guard (Join only copies
+coordinates). -/
+theorem expand_del_inside (L i k : Int) (hi : 0 ≤ i) (hk : 0 < k) (hL : i + k ≤ L) (l : Loc)
+    (h : coordsAll (inB 0 L) l = true) : coordsAll (inB 0 (L - k)) (expand l i (-k)) = true :=
+  expand_del_coords L i k hi hk hL l h
+
 /-- well-formedness is preserved -/
 theorem expand_del_wf (l : Loc) (i k : Int) (hw : wf l = true) (hk : 0 < k) :
     wf (expand l i (-k)) = true := (expand_del l i k hw hk).2
+
+/-- REFERENCE ranges: a range `[s,e)` overlapping the window `[a,b)` is replaced by exactly the
+re-based intersection (clipped to the window, counted from the window start) -/
+theorem clipRange_spec (a b s e : Int) (x : Int) :
+    ((clipRange a b (s, e)).1 ≤ x ∧ x < (clipRange a b (s, e)).2) ↔
+      (s ≤ x + a ∧ x + a < e ∧ a ≤ x + a ∧ x + a < b) := by
+  simp only [clipRange, gmax, gmin]
+  by_cases c1 : s - a < 0 <;> by_cases c2 : b - a < e - a <;> simp only [c1, c2, if_true, if_false] <;> omega
+
+/-- a clipped overlapping range is non-empty and lies inside the new sequence `[0, b-a]` -/
+theorem clipRange_inside (a b s e : Int) (hse : s < e) (hov : s < b ∧ a < e) (hab : a < b) :
+    0 ≤ (clipRange a b (s, e)).1 ∧ (clipRange a b (s, e)).1 < (clipRange a b (s, e)).2 ∧
+      (clipRange a b (s, e)).2 ≤ b - a := by
+  simp only [clipRange, gmax, gmin]
+  by_cases c1 : s - a < 0 <;> by_cases c2 : b - a < e - a <;> simp only [c1, c2, if_true, if_false] <;> omega
+
+/-- references that survive are renumbered consecutively from 1 -/
+theorem renumber_numbers (infos : List Pars.Bytes) :
+    (renumber infos).map (·.number) = (List.range infos.length).map (fun (k : Nat) => (k : Int) + 1) := by
+  unfold renumber
+  apply List.ext_getElem
+  · simp
+  · intro i h1 h2
+    simp
+
+theorem sliceRefs_renumbered (pref : Pars.Bytes) (a b : Int) (refs out : List Ref)
+    (h : sliceRefs pref a b refs = some out) : ∃ infos, out = renumber infos := by
+  unfold sliceRefs at h
+  simp only [Option.map_eq_some_iff] at h
+  obtain ⟨l, _, rfl⟩ := h
+  exact ⟨_, rfl⟩
 
 /-- non-vacuity -/
 example : wf (compl (joined [ranged 2 5 true false, point 7, ranged 9 12 false true])) = true ∧
